@@ -39,6 +39,9 @@ func newWorld(cfg Cfg) *world {
 	w.rpi = &meta.RetentionPolicyInfo{Name: rpName, ReplicaN: 1, Duration: 0, ShardGroupDuration: time.Duration(cfg.Dur),
 		IndexGroupDuration: time.Duration(cfg.Dur), Measurements: map[string]*meta.MeasurementInfo{}, MstVersions: map[string]meta.MeasurementVer{}}
 	w.dbi.RetentionPolicies[rpName] = w.rpi
+	if len(cfg.DBSK) > 0 {
+		w.dbi.ShardKey = meta.ShardKeyInfo{ShardKey: append([]string{}, cfg.DBSK...), Type: cfg.DBTyp}
+	}
 	w.data.Databases[dbName] = w.dbi
 	for i, mc := range cfg.Msts {
 		nameVer := influx.GetNameWithVersion(mc.Mst, 0)
@@ -189,6 +192,23 @@ func genCfg(r *gen.Rand) Cfg {
 			mc.InitNum = r.Range(1, cfg.PtNum)
 		}
 		cfg.Msts = append(cfg.Msts, mc)
+	}
+	if r.Chance(1, 4) {
+		// database-level shard key (CREATE DATABASE .. WITH SHARDKEY): mostly tags every measurement has, sometimes one
+		// that a measurement's schema lacks; the measurements keep their own keys (or none)
+		from := shared
+		if r.Chance(1, 6) {
+			from = tagUniverse
+		}
+		cfg.DBSK = pickKeys(r, from, []int{1, 1, 1, 2}[r.Intn(4)])
+		if r.Chance(1, 3) {
+			cfg.DBTyp = meta.HASH
+		}
+		for i := range cfg.Msts { // measurements created implicitly by a write have no key of their own
+			if r.Chance(1, 3) {
+				cfg.Msts[i].SK = nil
+			}
+		}
 	}
 	anyInit := false
 	for _, m := range cfg.Msts {
@@ -394,7 +414,11 @@ func runCase(n int, cfg Cfg, qm int, alter *Alter, cs condSpec, pts []Point, tmi
 		if p.Err != "" {
 			continue
 		}
+		// the definition in force: the database's shard key if it has one, else the measurement's for the group
 		ski := w.msts[p.M].GetShardKey(p.GID)
+		if len(cfg.DBSK) > 0 {
+			ski = &meta.ShardKeyInfo{ShardKey: cfg.DBSK}
+		}
 		var sb strings.Builder
 		if ski == nil || len(ski.ShardKey) == 0 {
 			for _, t := range p.Tags {
@@ -500,8 +524,11 @@ func runCase(n int, cfg Cfg, qm int, alter *Alter, cs condSpec, pts []Point, tmi
 	return c
 }
 
-func skUnionOf(mc *MstCfg, alter *Alter, mi int) map[string]bool {
+func skUnionOf(cfg *Cfg, mc *MstCfg, alter *Alter, mi int) map[string]bool {
 	u := map[string]bool{}
+	for _, k := range cfg.DBSK {
+		u[k] = true
+	}
 	for _, k := range mc.SK {
 		u[k] = true
 	}
@@ -532,7 +559,7 @@ func genCase(r *gen.Rand, n int) Case {
 		alter = &Alter{At: r.Range(1, np-1), M: am, SK: sk}
 	}
 	qsk := []string{}
-	for k := range skUnionOf(&cfg.Msts[qm], alter, qm) {
+	for k := range skUnionOf(&cfg, &cfg.Msts[qm], alter, qm) {
 		qsk = append(qsk, k)
 	}
 	sort.Strings(qsk)
@@ -543,6 +570,28 @@ func genCase(r *gen.Rand, n int) Case {
 		if r.Chance(1, 25) {
 			cs = condSpec{label: "parser"}
 			break
+		}
+		if len(cfg.DBSK) > 0 && r.Chance(1, 2) {
+			// two shard-key definitions: bind every tag of the measurement's own key and/or of the database's key by equality
+			var ks []string
+			if r.Chance(3, 4) {
+				ks = append(ks, cfg.Msts[qm].SK...)
+			}
+			if len(ks) == 0 || r.Chance(1, 3) {
+				ks = append(ks, cfg.DBSK...)
+			}
+			var parts []string
+			for _, k := range ks {
+				parts = append(parts, `"`+k+`" = `+quote(gen.Pick(r, valPool[:3])))
+			}
+			if r.Chance(1, 4) {
+				parts = append(parts, "usage >= 0")
+			}
+			txt := strings.Join(parts, " AND ")
+			if e, err := influxql.ParseExpr(txt); err == nil {
+				cs = condSpec{label: "parser", expr: e, text: txt}
+				break
+			}
 		}
 		t := g.tree(r.Range(1, 3), times)
 		if r.Chance(1, 4) {
@@ -581,7 +630,7 @@ func genCase(r *gen.Rand, n int) Case {
 		if i > 0 && r.Chance(1, 3) {
 			p.M = pts[i-1].M // runs of one measurement: A A B B A
 		}
-		p.Tags = genPointTags(r, &cfg.Msts[p.M], skUnionOf(&cfg.Msts[p.M], alter, p.M), prefer)
+		p.Tags = genPointTags(r, &cfg.Msts[p.M], skUnionOf(&cfg, &cfg.Msts[p.M], alter, p.M), prefer)
 		p.Time = gen.Pick(r, times)
 		if r.Chance(1, 2) {
 			p.Time = gen.Pick(r, hot) + int64(r.Intn(3))
@@ -756,6 +805,13 @@ func witnessCases() []Case {
 		txt := `host = '` + hv + `'`
 		e, _ := influxql.ParseExpr(txt)
 		res = append(res, runCase(-10-k, cfg, 0, &Alter{At: 6, M: 0, SK: []string{"region"}}, condSpec{label: "parser", expr: e, text: txt}, pts, full[0], full[1], false, nil))
+	}
+	// W8: database WITH SHARDKEY region; cpu WITH SHARDKEY host inside it, mem without a key of its own: every row is placed
+	// by region. Queries binding the measurement's key, the database's key, both.
+	for k, txt := range []string{`host = 'h2'`, `region = 'r1'`, `host = 'h4' AND region = 'r15'`, `host = 'h6'`, `host = 'h3'`} {
+		cfg := Cfg{Msts: []MstCfg{one("cpu", hr, []string{"host"}), one("mem", hr, nil)}, DBSK: []string{"region"}, Typ: meta.HASH, Dur: h, PtNum: 8}
+		e, _ := influxql.ParseExpr(txt)
+		res = append(res, runCase(-13-k, cfg, k%2, nil, condSpec{label: "parser", expr: e, text: txt}, mixed(-1), full[0], full[1], false, nil))
 	}
 	return res
 }
